@@ -79,3 +79,39 @@ def ham_field(H: dict, y):
     """J grad H in the ordering (q1,q2,q3,p1,p2,p3): (dH/dp, -dH/dq)."""
     g = grad_dict(H, y).real
     return np.concatenate([g[3:], -g[:3]])
+
+
+def gen_rhs_source(H: dict, name="f_gen"):
+    """Independent implementation of J grad H as numba-compilable source text: f(t, y) -> (dH/dp, -dH/dq)."""
+    def mono(k, c):
+        parts = [repr(float(c))]
+        for i, e in enumerate(k):
+            if e == 1:
+                parts.append(f"y[{i}]")
+            elif e > 1:
+                parts.append(f"y[{i}]**{e}")
+        return "*".join(parts)
+    grads = []
+    for j in range(6):
+        terms = []
+        for k, c in H.items():
+            if k[j] == 0:
+                continue
+            kk = list(k)
+            kk[j] -= 1
+            terms.append(mono(kk, float(np.real(c)) * k[j]))
+        grads.append(" + ".join(terms) if terms else "0.0")
+    lines = [f"def {name}(t, y):", "    out = np.empty(6)"]
+    for i in range(3):
+        lines.append(f"    out[{i}] = {grads[3 + i]}")
+        lines.append(f"    out[{3 + i}] = -({grads[i]})")
+    lines.append("    return out")
+    return "\n".join(lines) + "\n"
+
+
+def gen_rhs(H: dict, jit=True):
+    import numba
+    ns = {"np": np}
+    exec(gen_rhs_source(H), ns)
+    f = ns["f_gen"]
+    return numba.njit(cache=False)(f) if jit else f
